@@ -275,6 +275,55 @@ pub fn run(tier: Tier, seed: u64) -> i32 {
         });
         st.merge(w);
     }
+    // names with multi-byte characters at every offset from the end (with and without the _out suffix),
+    // as input, output and bidirectional signal, named in the header directly or as <name>_out
+    {
+        let stems = ["é", "Tür", "Lösch", "Größe", "öabc", "aöbc", "aböc", "abcö", "€€", "a€", "€a", "😀", "a😀", "😀ab", "ab😀cd", "ö", "ÿÿÿÿ", "n\u{303}o"];
+        let mut names: Vec<String> = vec![];
+        for st in stems {
+            names.push(st.to_string());
+            names.push(format!("{st}_out"));
+            names.push(format!("{st}_ou"));
+            names.push(format!("_out{st}"));
+        }
+        let kinds = 3u64;
+        let w = par_range("non-ASCII signal names (18 stems x 4 affixes) x {input, output, bidirectional} x header {name, name_out, both}", names.len() as u64 * kinds * 3, &deadline, |u, st| {
+            let n = &names[(u / 9) as usize];
+            let kind = (u / 3) % 3;
+            let hv = u % 3;
+            let sig = match kind {
+                0 => Sig::inp(n, 4, 0),
+                1 => Sig::out(n, 4),
+                _ => Sig::bidir(n, 4, V::Num(1)),
+            };
+            let sigs = vec![Sig::inp("A", 4, 0), sig, Sig::out("Q", 4)];
+            let header: Vec<String> = match hv {
+                0 => vec!["A".into(), n.clone()],
+                1 => vec!["A".into(), format!("{n}_out")],
+                _ => vec![n.clone(), "A".into(), format!("{n}_out")],
+            };
+            let row: Vec<Entry> = header.iter().map(|_| l(1)).collect();
+            let prog = Program { header, body: vec![Stmt::Row(row)] };
+            let text = text(&prog);
+            st.evals += 1;
+            st.nontrivial += 1;
+            st.witness("non_ascii_signal_name");
+            let want = bind_judgement(&prog, &sigs);
+            let got = load(&text, &sigs, DEFAULT_BUDGET);
+            let describe = |g: &str| format!("signals: [{}]\nprogram:\n{text}reference judgement: {want:?}\nwith_signals: {g}", sigs.iter().map(|s| s.show()).collect::<Vec<_>>().join(", "));
+            let replay = |obs: String| json!({"kind": "bind", "text": text, "signals": sigs_json(&sigs), "expected": [format!("{:?}", want.as_ref().map(|_| "accepted"))], "observed": [obs]});
+            match (&want, &got) {
+                (Ok(()), Ok(_)) | (Err(_), Err(ObsInit::BindErr(_))) => {}
+                (Ok(()), Err(ObsInit::BindErr(e))) => st.violation("fitting test and signal list rejected", (20 << 40) + u, describe(&format!("Err({e})")), || replay("rejected".into())),
+                (Err(why), Ok(_)) => st.violation(&format!("misfit accepted ({why:?})"), (20 << 40) + u, describe("Ok"), || replay("accepted".into())),
+                (_, Err(o)) => {
+                    let d = format!("{o:?}");
+                    st.violation(if d.contains("Panic") { "with_signals panics" } else { "test does not load" }, (20 << 40) + u, describe(&d), || replay(d.clone()));
+                }
+            }
+        });
+        st.merge(w);
+    }
     let meta = CheckMeta {
         id: "C11",
         tier,
@@ -284,7 +333,7 @@ pub fn run(tier: Tier, seed: u64) -> i32 {
             "independent judgement refsem::bind_judgement (four clauses of the property with the static scoping rule of DESIGN section 3.3)".into(),
             "programs contain nothing that can fail at run time for reasons other than binding (no arithmetic faults, no variable assigned only in an unexecuted while body)".into(),
         ],
-        required_witnesses: vec!["accepted_and_iterated", "rejected_duplicate_signal", "rejected_signal_is_virtual", "rejected_unknown_header_column", "rejected_clock_column_not_an_input", "rejected_read_of_non_output", "wide_test"],
+        required_witnesses: vec!["accepted_and_iterated", "rejected_duplicate_signal", "rejected_signal_is_virtual", "rejected_unknown_header_column", "rejected_clock_column_not_an_input", "rejected_read_of_non_output", "wide_test", "non_ascii_signal_name"],
         exhaustive_note: "all signal lists x headers x menu programs within the bounds".into(),
         e1: false,
     };
